@@ -46,7 +46,7 @@ PLANS = {
         "runs": flow("c02.api", C01_PROFILES, "asan", 1500, 6000) + flow("c02.api", C01_PROFILES, "fast", 0, 10000)
                 + flow("c02.api", CROWDED, "asan", 400, 2000) + flow("c02.api", CROWDED, "fast", 0, 10000)
                 + flow("c02.api", FARAWAY, "asan", 1000, 4000) + flow("c02.api", FARAWAY, "fast", 0, 10000)
-                + [R("h_dp", "asan", "c02.opt", 6000, 30000), R("h_dp", "fast", "c02.opt", 0, 60000),
+                + [R("h_dp", "asan", "c02.opt", 6000, 30000), R("h_dp", "fast", "c02.opt", 0, 60000), R("h_dp", "asan", "c02.reorder", 4000, 20000),
                    R("h_dp", "fast", "c02.ds.closure", 1080, 1080, exhaustive=True),
                    R("h_dp", "asan", "c02.ds.walk", 20000, 200000)],
     },
@@ -68,8 +68,9 @@ PLANS = {
         "rule": "polarity oracle (own row-orientation x polarity table) on the states exposed by legalize, by every Detailed "
                 "callback and on return of placeDetailed; non-trivial = polarised movable cells present and the call returned; "
                 "distinct = feature signature x outcome",
-        "assumptions": ["rows at one y share one orientation (C01 domain)"],
+        "assumptions": [],
         "runs": flow("c04", C01_PROFILES, "asan", 2000, 8000) + flow("c04", ["polarity", "multirow", "general"], "fast", 0, 20000)
+                + [R("h_dp", "asan", "c04.opt", 6000, 30000), R("h_dp", "fast", "c04.opt", 0, 60000), R("h_dp", "asan", "c04.reorder", 6000, 30000)]
                 + flow("c04", CROWDED, "asan", 400, 2000) + flow("c04", CROWDED, "fast", 0, 10000)
                 + flow("c04", FARAWAY, "asan", 1000, 4000),
     },
@@ -81,7 +82,7 @@ PLANS = {
         "assumptions": ["a rise is attributed to the known finding only if the frozen-orientation wirelength did not rise and a polarised cell with pins changed orientation"],
         "runs": flow("c05", ["general", "nets", "polarity", "dense", "multirow", "rowhigh-any"], "asan", 2000, 8000)
                 + flow("c05", ["general", "nets", "polarity", "dense", "multirow", "rowhigh-any"], "fast", 0, 12000)
-                + [R("h_dp", "asan", "c05.opt", 6000, 30000), R("h_dp", "fast", "c05.opt", 0, 60000)]
+                + [R("h_dp", "asan", "c05.opt", 6000, 30000), R("h_dp", "fast", "c05.opt", 0, 60000), R("h_dp", "asan", "c05.reorder", 12000, 40000), R("h_dp", "fast", "c05.reorder", 0, 100000)]
                 + flow("c05", CROWDED, "asan", 400, 2000) + flow("c05", CROWDED, "fast", 0, 10000)
                 + flow("c05", FARAWAY, "asan", 2000, 8000) + flow("c05", FARAWAY, "fast", 0, 20000)
                 + flow("c05", ["big"], "asan", 1000, 4000),
@@ -96,6 +97,7 @@ PLANS = {
         "runs": flow("c07", ["general", "degenerate", "big", "wide", "dense", "multirow", "obstruction", "paramfuzz"], "asan", 200, 3000)
                 + flow("c07", ["general", "degenerate", "big", "wide", "dense", "multirow", "obstruction", "paramfuzz"], "ndebug", 200, 3000)
                 + flow("c07", ["floating"], "asan", 1200, 12000) + flow("c07", ["floating"], "ndebug", 600, 6000)
+                + flow("c07", ["blocked"], "asan", 800, 8000) + flow("c07", ["blocked"], "ndebug", 200, 3000)
                 + [MC("h_flow", "c07.general", 48), MC("h_flow", "c07.degenerate", 48), MC("h_flow", "c07.paramfuzz", 48)],
     },
     "C10": {
@@ -130,7 +132,7 @@ PLANS = {
         "assumptions": ["reference pin transform table in harness/circ.hpp (DEF semantics)"],
         "runs": [R("h_hpwl", "asan", "c09.hpwl", 100000, 400000), R("h_hpwl", "asan", "c09.incr", 50000, 200000),
                  R("h_hpwl", "fast", "c09.hpwl", 0, 1000000), R("h_hpwl", "fast", "c09.incr", 0, 400000),
-                 R("h_dp", "asan", "c09.opt", 5000, 20000), R("h_dp", "fast", "c09.opt", 0, 40000)],
+                 R("h_dp", "asan", "c09.opt", 5000, 20000), R("h_dp", "asan", "c09.reorder", 4000, 20000), R("h_dp", "fast", "c09.opt", 0, 40000)],
     },
     "C12": {
         "level": "exploration",
@@ -155,7 +157,8 @@ PLANS = {
                 "non-trivial = >= 2 sources and >= 2 sinks; distinct = cost type, sizes, cost range, balance",
         "assumptions": ["lemon NetworkSimplex is exact (cross-checked by brute force for tiny sizes)", "integer costs below 2^29/nbSinks"],
         "runs": [R("h_transp", "asan", "c13.random", 100000, 400000), R("h_transp", "fast", "c13.exhaustive2", 1521, 1521, exhaustive=True),
-                 R("h_transp", "fast", "c13.exhaustive3", 0, 1521, exhaustive=True), R("h_transp", "fast", "c13.random", 0, 600000)],
+                 R("h_transp", "fast", "c13.exhaustive3", 0, 1521, exhaustive=True), R("h_transp", "fast", "c13.random", 0, 600000),
+                 R("h_transp", "fast", "c13.cascade", 2000000, 10000000), R("h_transp", "asan", "c13.cascade", 50000, 300000)],
     },
     "C14": {
         "level": "exploration",
